@@ -19,7 +19,7 @@ ASSUMPTIONS = [
     "the spliced program is the reference: both sides run the same assembler, the relation is metamorphic",
     "INCLUDE lines carry no label (a label on an INCLUDE line has no defined meaning)",
 ]
-HEALTH = {"crossing_reference": 0.2, "nested": 0.1, "cli": 40}
+HEALTH = {"crossing_reference": 0.08, "nested": 0.04, "cli": 16}
 EXHAUSTIVE = {}
 
 _FN = ["a", "b", "cc", "defs", "zzzzzzzz", "m", "inc/sub", "inc/deep"]
